@@ -193,14 +193,14 @@ def any_name(rng, sh):
     return rng.choice(ODD)
 
 
-def any_list(rng, sh, lo=0, hi=3):
+def any_list(rng, sh, lo=0, hi=3, none_ok=True):
     xs = [any_name(rng, sh) for _ in range(rng.randint(lo, hi))]
     if xs and rng.random() < 0.15:
         xs.append(xs[0])            # duplicate
     if len(xs) == 1 and rng.random() < 0.3:
         return xs[0]
     if not xs and rng.random() < 0.3:
-        return rng.choice([None, ""])
+        return rng.choice([None, ""]) if none_ok else ""
     return xs
 
 
@@ -211,11 +211,11 @@ def gen_wild(rng, sh):
         return ["add", any_name(rng, sh), rng.choice(TYPES + ["foo"]), any_list(rng, sh, 0, 2), any_list(rng, sh, 0, 2),
                 rng.random() < 0.3, rng.random() < 0.3]
     if kind in ("connect", "disconnect"):
-        return [kind, any_list(rng, sh, 0, 2), any_list(rng, sh, 0, 2)]
+        return [kind, any_list(rng, sh, 0, 2, kind == "connect"), any_list(rng, sh, 0, 2, kind == "connect")]
     if kind == "remove":
-        return ["remove", any_list(rng, sh, 0, 2)]
+        return ["remove", any_list(rng, sh, 0, 2, False)]
     if kind == "set_output":
-        return ["set_output", any_list(rng, sh, 0, 2), rng.random() < 0.6]
+        return ["set_output", any_list(rng, sh, 0, 2, False), rng.random() < 0.6]
     if kind == "add_blackbox":
         bn, ins, outs = rng.choice(BBDEFS + [("odd", ["d", "d2"], ["d"]), ("dot", ["p.x"], ["q"])])
         keys = pick(rng, ins + outs + ["nokey"], rng.randint(0, 2))
